@@ -499,7 +499,16 @@ def plan_ops(doc: dict, man: dict, args: dict) -> list:
                 client["extra_headers"] = {k_: v_ for st in derive if st[0] == "with_headers" for k_, v_ in st[1].items()}
                 client["extra_cookies"] = {k_: v_ for st in derive if st[0] == "with_cookies" for k_, v_ in st[1].items()}
             x["client"] = client
-            acts.append({"a": "call", "module": mod, "variants": variants_all if ci == 0 else rng.sample(variants_all, 2), "args": kwargs, "client": client, "response": resp, "x": x})
+            act_ = {"a": "call", "module": mod, "variants": variants_all if ci == 0 else rng.sample(variants_all, 2), "args": kwargs, "client": client, "response": resp, "x": x}
+            # some calls ride on the client of the previous call (same or another operation) instead of a fresh one: whatever a call leaves on the
+            # client - cookies, headers, the cached httpx client - meets the next request
+            prev_ = acts[-1] if acts and acts[-1].get("a") == "call" else None
+            if prev_ is not None and r2.random() < 0.3 and len(prev_.get("followups") or []) < 2 and bool(prev_["client"].get("auth")) == bool(client.get("auth")) and (ep["bodies"] == [] or bp is not None):
+                x["client"] = prev_["client"]
+                x["followup_of"] = prev_["module"]
+                prev_.setdefault("followups", []).append({"module": mod, "args": kwargs, "response": resp, "x": x})
+            else:
+                acts.append(act_)
     return acts
 
 
